@@ -25,7 +25,7 @@ def gen_case(rng, idx, tier):
     r = rng.random()
     dim = rng.choice([2, 2, 3])
     if r < 0.6:
-        nseg = rng.randint(1, 12)
+        nseg = rng.randint(1, 12) if rng.random() < 0.92 else rng.randint(17, 40)  # beyond any piece-count threshold
         U = gen.kv(rng, p=1, nint=nseg - 1, maxmult=1, itv=rng.choice([(F(0), F(1)), (F(-1), F(1)), (F(0), F(nseg))]))
         nseg = len(U) - 3
         P = [[F(rng.randint(-20, 20), rng.choice([1, 2])) for _ in range(dim)] for _ in range(nseg + 1)]
